@@ -19,6 +19,7 @@ import decimal
 #
 # You should have received a copy of the GNU Lesser General Public License
 # along with this program.  If not, see <http://www.gnu.org/licenses/>.
+import re
 import token
 
 from cutplace import _compat, _tools, errors
@@ -48,6 +49,20 @@ DEFAULT_PRECISION = len(MAX_DECIMAL_TEXT.split(".")[1])
 #: Scale (total number of digits) to use for decimal numbers if no range is
 #: specified.
 DEFAULT_SCALE = len(MAX_DECIMAL_TEXT) - 1
+
+#: Regular expression matching either a quoted string (group 1) or an
+#: ellipsis outside of a quoted string.
+_STRING_OR_ELLIPSIS_REGEX = re.compile(r"""("(?:\\.|[^"\\])*"|'(?:\\.|[^'\\])*')|""" + ELLIPSIS)
+
+
+def _tokenizable_description(description):
+    """
+    Same as ``description`` but with any :py:const:`ELLIPSIS` outside of
+    quoted text replaced by a colon (:), which has the same meaning. Starting
+    with Python 3.12, :py:mod:`tokenize` considers the ellipsis character
+    part of a name instead of a separate token.
+    """
+    return _STRING_OR_ELLIPSIS_REGEX.sub(lambda match: match.group(1) or ":", description)
 
 
 def code_for_number_token(name, value, location):
@@ -211,7 +226,7 @@ class Range(object):
 
             name_for_code = "range"
             location = None  # TODO: Add location where range is declared.
-            tokens = _tools.tokenize_without_space(self._description)
+            tokens = _tools.tokenize_without_space(_tokenizable_description(self._description))
             end_reached = False
             while not end_reached:
                 lower = None
@@ -545,7 +560,7 @@ class DecimalRange(Range):
         else:
             self._description = description.replace("...", ELLIPSIS)
             self._items = []
-            tokens = _tools.tokenize_without_space(self._description)
+            tokens = _tools.tokenize_without_space(_tokenizable_description(self._description))
             end_reached = False
             max_digits_after_dot = 0
             max_digits_before_dot = 0
